@@ -381,7 +381,7 @@ def object_case(c):
     dtheta = dz * io / const.R0
     bz = 1 / np.sqrt(1 + (r * io / const.R0) ** 2)
     zDist = -eta[3][None, :] * bz[:, None] * c['dt']
-    out = {'dz': float(dz), 'z': float(eta[2][1]), 'dtheta': [float(x) for x in dtheta], 'zDist': zDist.tolist(),
+    out = {'dz_spec': float((bs[2].domain[1] - bs[2].domain[0]) / len(eta[2])), 'dz': float(dz), 'z': float(eta[2][1]), 'dtheta': [float(x) for x in dtheta], 'zDist': zDist.tolist(),
            'shifts': obj._shifts.tolist(), 'tss': obj._thetaShifts.tolist(), 'lc': obj._lagrangeCoeffs.tolist(),
            'q': [float(x) for x in eta[1]], 'knots': [float(x) for x in bs[1].knots], 'deg': int(bs[1].degree),
            'cu': bool(bs[1].cubic_uniform), 'steps': []}
@@ -464,6 +464,9 @@ def check_object(chk, c, o):
 
 def judge_object(chk, c, o, answers):
     t = 0
+    if abs(o['dz'] - o['dz_spec']) > 64 * U * abs(o['dz_spec']):
+        chk.violation('FluxSurfaceAdvection._getLagrangePts:dz', 'the z spacing used for the stencil is %r but the grid has spacing %r (period / points)'
+                      % (o['dz'], o['dz_spec']), {'case': {k: c[k] for k in ('npts', 'degrees', 'dt', 'iota')}, 'dz': o['dz'], 'dz_spec': o['dz_spec']})
     nv = len(o['zDist'][0])
     desc = {'npts': c['npts'], 'degrees': c['degrees'], 'uniform': c['uniform'], 'dt': c['dt'], 'iota': c['iota'], 'slope': c['slope']}
     for a, dth in enumerate(o['dtheta']):
